@@ -14,6 +14,7 @@ type Unit struct {
 	Bound  int
 	Prune  bool
 	Weight int // rough relative cost, for ordering
+	Shards int // >1: the DFS tree is split at its first level over this many worker processes
 	Env    bool
 	Check  func(x *Exec) []Violation
 	Goal   func(x *Exec) []string
